@@ -1,3 +1,6 @@
+#[cfg(koto_verif)]
+use koto_parser::verif::HashSet;
+#[cfg(not(koto_verif))]
 use std::collections::HashSet;
 
 use koto_parser::{AstIndex, ConstantIndex, Span};
